@@ -9,6 +9,7 @@
 import OpwVerif.Lemmas.SrcTieReal
 import OpwVerif.Lemmas.SrcTie
 import OpwVerif.Lemmas.SrcCtlTie
+import OpwVerif.Lemmas.SrcWrapTie
 namespace Opw.Tie
 open Opw
 
@@ -76,6 +77,48 @@ theorem computeCenters_loop_is_source (n : Nat) (a b : R) : SrcCtl.centerTolSrcL
   centerTolSrcLoop_eq n a b
 
 theorem computeCenters_is_source (a b : R) : SrcCtl.centerTolSrc a b = centerTol a b := centerTolSrc_eq a b
+
+end
+
+/-! ### The wrappers (`Generated/SrcWrap.lean`, translated by `tools/rs2lean_wrap.py` from tool.rs, frame.rs,
+parallelogram.rs): every `Kinematics` method of Tool, Base, Frame and Parallelogram that transforms a pose, a joint
+vector or an answer list, and `Frame::forward_transformed`, is the corresponding clause of the model's `Kin`. -/
+section
+variable {R : Type} [OpwNum R]
+
+theorem tool_is_source (i : Kin R) (t pose : Iso R) (prev q : J6 R) (j6 : R) :
+    SrcWrap.toolInverse i t pose = (Kin.tool i t).inverse pose ∧
+    SrcWrap.toolInverseContinuing i t pose prev = (Kin.tool i t).inverseContinuing pose prev ∧
+    SrcWrap.toolInverse5dof i t pose j6 = (Kin.tool i t).inverse5dof pose j6 ∧
+    SrcWrap.toolInverseContinuing5dof i t pose prev = (Kin.tool i t).inverseContinuing5dof pose prev ∧
+    SrcWrap.toolForward i t q = (Kin.tool i t).forward q ∧ SrcWrap.toolLinks i t q = (Kin.tool i t).links q :=
+  ⟨toolInverse_eq .., toolInverseContinuing_eq .., toolInverse5dof_eq .., toolInverseContinuing5dof_eq .., toolForward_eq .., toolLinks_eq ..⟩
+
+theorem base_is_source (i : Kin R) (b pose : Iso R) (prev q : J6 R) (j6 : R) :
+    SrcWrap.baseInverse i b pose = (Kin.base i b).inverse pose ∧
+    SrcWrap.baseInverseContinuing i b pose prev = (Kin.base i b).inverseContinuing pose prev ∧
+    SrcWrap.baseInverse5dof i b pose j6 = (Kin.base i b).inverse5dof pose j6 ∧
+    SrcWrap.baseInverseContinuing5dof i b pose prev = (Kin.base i b).inverseContinuing5dof pose prev ∧
+    SrcWrap.baseForward i b q = (Kin.base i b).forward q ∧ SrcWrap.baseLinks i b q = (Kin.base i b).links q :=
+  ⟨baseInverse_eq .., baseInverseContinuing_eq .., baseInverse5dof_eq .., baseInverseContinuing5dof_eq .., baseForward_eq .., baseLinks_eq ..⟩
+
+theorem frame_is_source (i : Kin R) (f pose : Iso R) (prev q : J6 R) (j6 : R) :
+    SrcWrap.frameInverse i f pose = (Kin.frame i f).inverse pose ∧
+    SrcWrap.frameInverseContinuing i f pose prev = (Kin.frame i f).inverseContinuing pose prev ∧
+    SrcWrap.frameInverse5dof i f pose j6 = (Kin.frame i f).inverse5dof pose j6 ∧
+    SrcWrap.frameInverseContinuing5dof i f pose prev = (Kin.frame i f).inverseContinuing5dof pose prev ∧
+    SrcWrap.frameForward i f q = (Kin.frame i f).forward q ∧ SrcWrap.frameLinks i f q = (Kin.frame i f).links q ∧
+    SrcWrap.frameForwardTransformed i f q prev = forwardTransformed i f q prev :=
+  ⟨frameInverse_eq .., frameInverseContinuing_eq .., frameInverse5dof_eq .., frameInverseContinuing5dof_eq .., frameForward_eq ..,
+   frameLinks_eq .., frameForwardTransformed_eq ..⟩
+
+theorem parallelogram_is_source (i : Kin R) (s : R) (d c : Nat) (pose : Iso R) (prev q : J6 R) (j6 : R) :
+    SrcWrap.paraInverse i s d c pose = (Kin.para i s d c).inverse pose ∧
+    SrcWrap.paraInverseContinuing i s d c pose prev = (Kin.para i s d c).inverseContinuing pose prev ∧
+    SrcWrap.paraInverse5dof i s d c pose j6 = (Kin.para i s d c).inverse5dof pose j6 ∧
+    SrcWrap.paraInverseContinuing5dof i s d c pose prev = (Kin.para i s d c).inverseContinuing5dof pose prev ∧
+    SrcWrap.paraForward i s d c q = (Kin.para i s d c).forward q ∧ SrcWrap.paraLinks i s d c q = (Kin.para i s d c).links q :=
+  ⟨paraInverse_eq .., paraInverseContinuing_eq .., paraInverse5dof_eq .., paraInverseContinuing5dof_eq .., paraForward_eq .., paraLinks_eq ..⟩
 
 end
 
